@@ -51,6 +51,8 @@ func c04Ops(wide bool) []c04Op {
 	ops = append(ops, c04Op{"copy(y=x)", "copy", "y", "x"}, c04Op{"copy(x=y)", "copy", "x", "y"},
 		c04Op{"print(x++)", "step", "x", "inc"}, c04Op{"print(y--)", "step", "y", "dec"},
 		c04Op{"for(i=x;up)", "forfrom", "x", "inc"}, c04Op{"for(i=y;down)", "forfrom", "y", "dec"})
+	// a loop variable over elements of two types (the second element meets the type rule like the first) and over nil elements
+	ops = append(ops, c04Op{"each(x:str,int)", "each", "x", "mixed"}, c04Op{"each(x:nil)", "each", "x", VNil})
 	// a string grown from its own value (a copy taken earlier and the enclosing block's binding keep the old text)
 	ops = append(ops, c04Op{"grow(x)", "grow", "x", ""}, c04Op{"grow(y)", "grow", "y", ""})
 	// loops that never run a pass: what follows is their @else block, which is a block of the loop construct
@@ -200,6 +202,9 @@ func c04Build(cs c04Case, maxDepth int) (tree []*Node, ok bool) {
 				return nil, false
 			}
 			arr := &Expr{Op: "arr", Kids: []*Expr{c04Value(op.typ, 70+pos), c04Value(op.typ, 80+pos)}}
+			if op.typ == "mixed" {
+				arr = &Expr{Op: "arr", Kids: []*Expr{c04Value(VStr, 70+pos), c04Value(VInt, 80+pos)}}
+			}
 			n := &Node{K: "each", Name: op.v, E: arr}
 			emit(nText("("))
 			emit(n)
